@@ -109,6 +109,8 @@ type World struct {
 	serial  bool
 	nserial int
 	histSoFar []Step
+	// hash reuse (variant runs): the leaf added into slot s carries the hash of the dead leaf of slot reuse[s]
+	reuse map[int]int
 	pcached   map[int]bool
 	evlog   func(any)
 }
@@ -225,10 +227,18 @@ func (w *World) encTargets(ts []JPos, R uint8) []uint64 {
 	return out
 }
 
+// slotHash is the hash of the leaf inserted into slot s.
+func (w *World) slotHash(s int) Hash {
+	if d, ok := w.reuse[s]; ok {
+		return w.sy.H(leafTerm(d))
+	}
+	return w.sy.H(leafTerm(s))
+}
+
 func (w *World) leafHashes(slots []int) []Hash {
 	out := make([]Hash, len(slots))
 	for i, s := range slots {
-		out[i] = w.sy.H(leafTerm(s))
+		out[i] = w.slotHash(s)
 	}
 	return out
 }
@@ -298,6 +308,18 @@ func panicOrigin(stack string) string {
 	return ""
 }
 
+// hashIsLive: the hash of the (dead) leaf of slot s is carried by a live leaf in another slot.
+func (w *World) hashIsLive(s int, livePos map[int]RI) bool {
+	for s2, d := range w.reuse {
+		if d == s {
+			if _, ok := livePos[s2]; ok {
+				return true
+			}
+		}
+	}
+	return false
+}
+
 // checkRoots compares leaf count and roots of every instance (C01).
 func (w *World) checkRoots(expRoots []string, props ...string) {
 	if len(props) == 0 {
@@ -339,7 +361,7 @@ func (w *World) blockArgs(st *Step) blockArgs {
 		proof:   w.sy.Hs(st.Pf.P),
 	}
 	for i := 0; i < st.K; i++ {
-		ba.adds = append(ba.adds, w.sy.H(leafTerm(int(w.n)+i)))
+		ba.adds = append(ba.adds, w.slotHash(int(w.n)+i))
 	}
 	if st.Enc != nil {
 		for j := 0; j < st.Enc.Junk; j++ {
@@ -611,9 +633,12 @@ func (w *World) fullCompare(exp *Expect) {
 		pan := protect(func() {
 			// leaf look-ups: live, dead, internal, junk
 			for s := 0; s < int(exp.N); s++ {
-				h := w.sy.H(leafTerm(s))
+				h := w.slotHash(s)
 				pos, found := a.GetLeafPosition(h)
 				p, live := livePos[s]
+				if !live && w.hashIsLive(s, livePos) {
+					continue // this dead leaf's hash was added again and is live in another slot
+				}
 				tracked := live
 				if partial {
 					tracked = live && in.cached[s]
@@ -639,9 +664,20 @@ func (w *World) fullCompare(exp *Expect) {
 				hs := make([]Hash, 0, exp.N+1)
 				want := make([]uint64, 0, exp.N+1)
 				for s := 0; s < int(exp.N); s++ {
-					hs = append(hs, w.sy.H(leafTerm(s)))
+					hs = append(hs, w.slotHash(s))
 					p, live := livePos[s]
-					if live && (!partial || in.cached[s]) {
+					cs := s
+					if !live && w.hashIsLive(s, livePos) {
+						// asked twice: both entries are the live slot's position
+						for s2, d := range w.reuse {
+							if d == s {
+								if p2, ok := livePos[s2]; ok {
+									p, live, cs = p2, true, s2
+								}
+							}
+						}
+					}
+					if live && (!partial || in.cached[cs]) {
 						want = append(want, enc(p, R))
 					} else {
 						want = append(want, 0)
